@@ -101,6 +101,14 @@ CLAIMS["C11"] = dict(
     technique="read-site classification (slice to guard / diagnostics), CFG dominance, sibling predicate normalisation",
     design="DESIGN.md section 4, C11")
 
+CLAIMS["C12"] = dict(
+    text="Counting/pairing analysis between the listing built in main and the position counter: every listed section is counted under "
+         "the same guard, the line array is sized after all counting, the taproot commitment is described with exactly as many lines "
+         "as Iterate() executes steps, each script switch advances the marker once, the P2SH section is listed under the stepper's "
+         "predicate, the counter moves by one per step/rewind, and print/echo are indexed and bounded by it. Line text is not decided.",
+    technique="structural counting (linear forms in the path length), guard agreement, CFG must-pass",
+    design="DESIGN.md section 4, C12")
+
 NOT_YET = "check not built yet in this round (see DESIGN.md section 7 build order)"
 
 NA = {
